@@ -430,7 +430,7 @@ func (fr *Frame) specIndex(base, idx Val, env *SpecEnv) Val {
 		}
 		h := heapElem(el)
 		fc.regVar(h, arr2Sort(sortOf(el)))
-		return Val{S: sSel(fc.rd(st, h, sApp("sl_arr", s)), sApp("+", sApp("sl_off", s), fr.scalar(idx))), Typ: el}
+		return Val{S: fc.rd2(st, h, sApp("sl_arr", s), sApp("+", sApp("sl_off", s), fr.scalar(idx))), Typ: el}
 	case *types.Map:
 		return Val{S: fr.mapValue(st, base.Typ, fr.scalar(base), fr.scalar(idx)), Typ: u.Elem()}
 	case *types.Pointer:
@@ -438,7 +438,7 @@ func (fr *Frame) specIndex(base, idx Val, env *SpecEnv) Val {
 			el := at.Elem()
 			h := heapElem(el)
 			fc.regVar(h, arr2Sort(sortOf(el)))
-			return Val{S: sSel(fc.rd(st, h, fr.ptrTerm(base)), fr.scalar(idx)), Typ: el}
+			return Val{S: fc.rd2(st, h, fr.ptrTerm(base), fr.scalar(idx)), Typ: el}
 		}
 	}
 	return fr.specErr("cannot index %v", base.Typ)
